@@ -102,6 +102,13 @@ CLAIMED["C16"] = dict(
     ref="DESIGN.md 4/C16",
 )
 
+CLAIMED["C07"] = dict(
+    technique="dominance of an is-AUTO/absent test over every store and deletion in the autofill routines (guard extraction with flag provenance); coverage of AUTO defaults by filling routines; must-flow call order in autofill_and_serialise_stream; set/condition agreement of version-implication rules with the validator; structural recognition of the picture-number and parse-offset rules (linear-form normalised)",
+    text="Decided on all paths: no explicitly supplied value can be overwritten or deleted; every AUTO default has a filler and the pipeline runs them in the required order; the version rules consulted equal the validator's under the same field conditions; the picture-number rule (mask, restart, first-fragment increment, counter follows explicit numbers) and the offset rule (0 at sequence boundaries, distances between recorded offsets, patched field positions) have the required shape. Does not decide offset arithmetic or default contents.",
+    note="Trusted: the serialiser records _offset per parse_info (C06.c).",
+    ref="DESIGN.md 4/C07",
+)
+
 NOT_APPLICABLE = {
     "C12": "arithmetic over unbounded integers (quantisation error bounds, monotonicity of a rational formula): no structural clause; needs algebra/solver or execution",
     "C13": "partition/telescoping identities of floor arithmetic on runtime sizes; the functions are spec-pinned arithmetic with nothing to decide from code shape",
